@@ -3,6 +3,7 @@ package main
 // C19 — tokenisation ignores layout and comments and reports true positions.
 
 import (
+	gotoken "go/token"
 	"fmt"
 	"regexp"
 	"sort"
@@ -728,6 +729,69 @@ func c19b(c *Ctx) {
 		}
 	}
 	c.Check(okWidth && eofRead && sawZero, "readChar/width-is-decoded-size", c.W.FuncPos(fn), "width is 0 at end of input, else the decoded size", "cannot identify the decoded width")
+	// the counters are bookkeeping, not input: nowhere in the lexer is a line or column counter
+	// compared with anything (a token boundary that depends on the layout — "the next literal is
+	// on the same line" — makes the token sequence depend on line breaks)
+	{
+		counters := map[string]bool{"lineNumber": true, "charNumber": true, "utf8CharNumber": true, "prevCharNumber": true, "prevUtf8CharNumber": true}
+		nCmp := 0
+		for _, f := range c.W.FuncsOf("lexer") {
+			if isTestFunc(c.W, f) {
+				continue
+			}
+			taint := map[ssa.Value]bool{}
+			instrs(f, func(in ssa.Instruction) {
+				if u, ok := in.(*ssa.UnOp); ok && u.Op == gotoken.MUL {
+					if _, t, fl, ok := fieldAddrOf(u.X); ok && typeIs(t, "lexer", "Lexer") && counters[fl] {
+						taint[u] = true
+					}
+				}
+			})
+			for changed := true; changed; {
+				changed = false
+				instrs(f, func(in ssa.Instruction) {
+					switch x := in.(type) {
+					case *ssa.Phi:
+						if taint[x] {
+							return
+						}
+						for _, e := range x.Edges {
+							if taint[e] {
+								taint[x] = true
+								changed = true
+							}
+						}
+					case *ssa.UnOp:
+						// a local that holds a counter value
+						if a, ok := x.X.(*ssa.Alloc); ok && !taint[x] && a.Referrers() != nil {
+							for _, r := range *a.Referrers() {
+								if st, ok := r.(*ssa.Store); ok && st.Addr == ssa.Value(a) && taint[st.Val] {
+									taint[x] = true
+									changed = true
+								}
+							}
+						}
+					}
+				})
+			}
+			instrs(f, func(in ssa.Instruction) {
+				bo, ok := in.(*ssa.BinOp)
+				if !ok {
+					return
+				}
+				switch bo.Op {
+				case gotoken.EQL, gotoken.NEQ, gotoken.LSS, gotoken.LEQ, gotoken.GTR, gotoken.GEQ:
+				default:
+					return
+				}
+				if taint[bo.X] || taint[bo.Y] {
+					nCmp++
+					c.Bad(fmt.Sprintf("%s/counter-compared#%d", f.Name(), nCmp), c.W.Pos(bo.Pos()), f.Name()+" compares a line / column counter ("+pretty(c.term(f, bo))+"): what the lexer does would depend on where in a line the text stands")
+				}
+			})
+		}
+		c.Check(nCmp == 0, "counters/never-compared", c.W.FuncPos(fn), "no line or column counter is compared anywhere in the lexer", "a position counter decides something in the lexer")
+	}
 	// the current character is the character that was decoded — as it is: 0 at end of input, else
 	// the rune DecodeRuneInString reports (a '\r' turned into '\n' would count lines twice in a
 	// CRLF file and change what strings and raw blocks contain)
@@ -1064,6 +1128,21 @@ func c19c(c *Ctx) {
 	// only what is said about the current and the next character matters here (the test for
 	// queued tokens, however it is spelled, precedes the loop)
 	got := dropAtoms(bodyD, func(a string) bool { return !strings.Contains(a, "$0.ch") && !strings.Contains(a, "peekChar(") })
+	// ... and nothing that is not known before the loop is asked besides: a further conjunct
+	// (the read position, a counter) would make a comment opener a token in some places
+	{
+		before := map[string]bool{}
+		for _, a := range dnfAtoms(c.PC(fn).At(head)) {
+			before[a] = true
+		}
+		var extra []string
+		for _, a := range dnfAtoms(bodyD) {
+			if !before[a] && !strings.Contains(a, "$0.ch") && !strings.Contains(a, "peekChar(") {
+				extra = append(extra, a)
+			}
+		}
+		c.Check(len(extra) == 0, "NextToken/comment-openers/nothing-else-asked", c.W.Pos(head.Instrs[0].Pos()), "whether a comment starts depends on the current and the next character only", "the comment loop also asks "+fmt.Sprint(prettyAll(extra))+": a '#' or '//' would be a comment in some places and a token in others")
+	}
 	// (the look-ahead made inside a predicate helper is the same look-ahead)
 	{
 		norm := dnf{unknown: got.unknown}
